@@ -167,4 +167,32 @@ example : ((10 : UInt64) < 20) ∧ (0 : UInt64) < 5 := by decide
 example : parseRange [49, 48, 32, 45, 32, 50, 48] = .ok ⟨10, some 20, false, false⟩ := by decide   -- "10 - 20"
 example : parseRange [53] = .err "bounds" := by decide                                              -- "5"
 
+/-- Next = the adjacent range of the given length after the receiver (interval arithmetic modulo 2^64). -/
+theorem next_meets_monitor_spec (r : Range) (n : UInt64) : nextSpec r (next r n) n = true := by
+  unfold nextSpec next
+  rcases r with ⟨s, _ | e, xs, xe⟩
+  · simp [UInt64.toNat_add]
+  · simp [UInt64.toNat_add]
+
+/-- Previous = the adjacent range of the given length before the receiver: it ends where the receiver starts. -/
+theorem previous_meets_monitor_spec (r : Range) (n : UInt64) : prevSpec r (previous r n) n = true := by
+  unfold prevSpec previous
+  have h1 := r.start.toNat_lt
+  have h2 := n.toNat_lt
+  rcases r with ⟨s, _ | e, xs, xe⟩
+  · simp only [BEq.rfl, Bool.and_self, Bool.true_and, Bool.and_true, decide_eq_true_eq]
+    rw [UInt64.toNat_sub]; omega
+  · simp only [BEq.rfl, Bool.and_self, Bool.true_and, Bool.and_true, decide_eq_true_eq]
+    rw [UInt64.toNat_sub]; omega
+
+/-- Size = end minus start; an error for an open-ended range. -/
+theorem size_meets_monitor_spec (r : Range) : sizeSpec r ((size r).map (·.toNat)) = true := by
+  unfold sizeSpec size
+  rcases r with ⟨s, _ | e, xs, xe⟩
+  · rfl
+  · have h1 := s.toNat_lt
+    have h2 := e.toNat_lt
+    simp only [Option.map_some, beq_iff_eq, Option.some.injEq]
+    rw [UInt64.toNat_sub]; omega
+
 end BstreamVerif.Props.C19
